@@ -1,0 +1,37 @@
+//go:build verif
+
+package strategy
+
+import "context"
+
+// Lemma clients (never called at run time; compiled only with the verif tag): small compositions
+// of real API calls whose contracts state the round-trip facts of C02. gcv verifies them like any
+// other function, callee by callee through the callees' contracts.
+
+func lemmaPreciseRoundTrip(s *PreciseStrategy, ctx context.Context) {
+	tok, ok := s.TryAcquire(ctx)
+	if ok {
+		tok.Release()
+	}
+}
+
+func lemmaSimpleRoundTrip(s *SimpleStrategy, ctx context.Context) {
+	tok, ok := s.TryAcquire(ctx)
+	if ok {
+		tok.Release()
+	}
+}
+
+func lemmaLookupRoundTrip(s *LookupPartitionStrategy, ctx context.Context) {
+	tok, ok := s.TryAcquire(ctx)
+	if ok {
+		tok.Release()
+	}
+}
+
+func lemmaPredicateRoundTrip(s *PredicatePartitionStrategy, ctx context.Context) {
+	tok, ok := s.TryAcquire(ctx)
+	if ok {
+		tok.Release()
+	}
+}
